@@ -80,6 +80,14 @@ CHECKS["C13"] = dict(
    note="Trusted: file-system/HDF5/pool contracts of symx.env (closed pools refuse map); hard process death and crashes inside real worker processes outside; unlink failing itself is exempt from the no-leak claim.",
    technique="symbolic fault-point exploration of the real Python source over an environment model (z3-enumerated paths); candidates replayed by monkey-patching the real function at the model's invocation index",
    ref="3/C13")
+CHECKS["C01"] = dict(
+   category="translation_validation",
+   text="The Cython kernel (fast_likelihood.pyx, transliterated statement by statement and validated every run against the compiled extension) is executed symbolically together with the real Python around it; z3 decides, at cut points, that the kernel's state and outputs equal the analytic Gaussian marginal: "
+        "jitter weights, prior mean/variance slots incl. the capped K-variance rule and unit conversions (symbolic unit scales), Kepler-call wiring, trend rows, the matrices handed to LAPACK (Lambda^-1+M^T W M and W^-1+M Lambda M^T), Binv by Woodbury in the returned inverse, b, chi^2, log-det from the LU diagonal and the returned value, for every data set / prior / sample of the shape. "
+        "Five recorded findings of the .pyx are re-derived by the solver, replayed on the compiled kernel and printed as KNOWN-FINDING; all VCs are also proved under their masks (s=0, period prior in days, no custom-K+offsets) so that any other deviation is a VIOLATION. Bounds: <=3 epochs, poly_trend<=2, <=1 offset, <=2 chunk rows (quick).",
+   note="Trusted: z3, symx, the transliteration rules (validated numerically each run), contracts of LAPACK/Kepler/log/pow, the Woodbury and LU-determinant lemmas, reals for floats (the kernel's Woodbury step is numerically unstable for prior/data variance ratios >~1e7: outside the claim), finiteness for e>0.99 not claimed.",
+   technique="translation of the .pyx to Python + symbolic execution + z3 (polynomial identities with named reciprocals, UF); sat models replayed on the compiled kernel against a dense numpy oracle",
+   ref="3/C01")
 NOT_YET = {}
 ALL = ["C%02d" % i for i in range(1, 20)]
 
